@@ -1,5 +1,12 @@
 """Human-written level texts for MANIFEST.json."""
 META = {
+    "C11": dict(
+        text="Proof: for every tree, subscription assignment, message type and failing subset, the Lean model of the delivery walk hands the message to exactly the "
+             "subscribed source and nodes, each exactly once in preorder (deliver_exact, deliver_nodup, via walk_N/walk_L by mutual structural induction and "
+             "consecutive preorder indices flatten_idx_N/L), and reports exactly the failures of failing recipients without stopping (deliver_exact, errors part). "
+             "Tied to Executor.deliverMessage on a real executor; re-subscription between messages is part of the generated histories.",
+        note="Trusted: Lean kernel, model transcription, harness nodes. Message fields are compared between sender and every recipient by the harness.",
+    ),
     "C13": dict(
         text="Proof: for every tree shape, acceptance by the Lean model of validate implies every clause of consistency except global id uniqueness "
              "(accept_sound: registered source/nodes/handlers, parent-child type compatibility, handler rules, transport) and id uniqueness along every "
